@@ -280,6 +280,8 @@ def check_C19(c):
     strs = ['"q"', '"x y"', '"a,b"', '"(p)"', '"^"', '"a ^ b(c, d)"', '""', '"\\"esc\\""', '", "', '"#"', '"1"']
     # strings whose content ends in an escaped backslash or mixes escaped backslashes and quotes (several per line when indent=False)
     strs += ['"C:\\\\data\\\\"', '"\\\\"', '"a\\\\\\"b"', '"\\\\\\""', '"x\\\\"']
+    # characters that str.splitlines() treats as line boundaries but the notation does not: they are string content
+    strs += ['"War%sand Peace"' % gen.SC[k] for k in ('ls', 'nel', 'vt', 'ff', 'fs')] + ['"%s"' % gen.SC['ls'], '"a%sb, c%s"' % (gen.SC['nel'], gen.SC['vt'])]
     import json as _json
     strs += [_json.dumps(''.join(c.rng.choice('ab \\"^,()') for _ in range(c.rng.randint(1, 5)))) for _ in range(12)]
     roles = [':instance', ':ARG0', ':ARG1-of', ':op1', ':mod', ':r', ':x-y']
